@@ -28,12 +28,15 @@ META = {
 }
 
 KIND_NODE = {"quote": "block_quote", "item": "list_item", "note": "note"}
+DIR_TOP = [("note", ""), ("topic", "Tt"), ("sidebar", "Tt"), ("admonition", "Tt"), ("tip", "")]
+DIR_ANY = [("note", ""), ("admonition", "Tt"), ("tip", ""), ("warning", "")]
 
 
 def micro_to_blocks(ev):
     """micro events -> block tree for mdgen; marker text T<n>/P<n> with n the micro index."""
     root: list = []
     stack = [root]
+    kinds_open: list = []
     inc_n = 0
     for n, e in enumerate(ev, 1):
         t = e[0]
@@ -45,19 +48,29 @@ def micro_to_blocks(ev):
             kind = e[1]
             if kind == "quote":
                 b = {"k": "quote", "kids": []}
+            elif kind == "titles":
+                # a directive that parses its body with match_titles=True (registered by the harness, like Sphinx's `only`)
+                b = {"k": "dir", "name": "verif-titles", "colon": n % 2 == 0, "kids": []}
             elif kind == "item":
                 b = {"k": "item", "kids": []}
             else:
-                b = {"k": "dir", "name": "note", "colon": n % 2 == 0, "kids": []}
+                # any body-level directive: a heading inside it is a rubric.  topic / sidebar are docutils "Structural"
+                # nodes but no sections; they are only allowed at document / section level
+                top = len(stack) == 1 or all(x == "inc" for x in kinds_open)
+                name, arg = (DIR_TOP if top else DIR_ANY)[n % len(DIR_TOP if top else DIR_ANY)]
+                b = {"k": "dir", "name": name, "arg": arg, "colon": n % 2 == 0, "kids": []}
+            kinds_open.append(kind)
             stack[-1].append(b)
             stack.append(b["kids"])
         elif t == "enter":
             inc_n += 1
             b = {"k": "inc", "file": f"inc{n}.md", "opts": [("heading-offset", str(e[1]))] if e[1] else [], "kids": []}
+            kinds_open.append("inc")
             stack[-1].append(b)
             stack.append(b["kids"])
         elif t in ("close", "exit"):
             stack.pop()
+            kinds_open.pop()
     return root
 
 
@@ -143,9 +156,9 @@ def run(ctx):
     ctx.assumptions += ["docutils front end, pre-transform doctree, doctitle_xform off",
                         "the generated Markdown tokenises to the intended blocks (marker words are checked to be present exactly once)"]
     full = {"Levels": {1, 2, 3, 4, 5, 6}, "CLevels": {1, 3}, "Kinds": "<-AllKinds", "Incs": "<-IncsSmall",
-            "WithPara": True, "DevPruneOff": False}
+            "WithPara": True, "DevPruneOff": False, "DevMatchTitles": False}
     honly = {"Levels": {1, 2, 3, 4, 5, 6}, "CLevels": {1}, "Kinds": "<-NoIncs", "Incs": "<-NoIncs",
-             "WithPara": False, "DevPruneOff": False}
+             "WithPara": False, "DevPruneOff": False, "DevMatchTitles": False}
     from .c18 import _cfg
     invs = ["Structure", "Warnings", "Restored", "OpenMap"]
     # ---- T --------------------------------------------------------------------------------
@@ -160,7 +173,7 @@ def run(ctx):
                 wd=ctx.wd, timeout=3000)
     tlc.expect_holds(r, "Sections(levels only) M |= S")
     ctx.add_tlc("Sections_mc_levels", r)
-    rd = tlc.run("Sections", _cfg(ctx, "s_dev.cfg", {**honly, "MaxLen": 4, "DevPruneOff": True}, invariants=["Structure"]), wd=ctx.wd)
+    rd = tlc.run("Sections", _cfg(ctx, "s_dev.cfg", {**honly, "MaxLen": 4, "DevPruneOff": True, "DevMatchTitles": False}, invariants=["Structure"]), wd=ctx.wd)
     tlc.expect_violation(rd, "Structure", "Sections Dev_PruneOff")
     ctx.add_tlc("Sections_dev_pruneoff", rd, "expected counterexample found (needs e.g. 1,2,1,3)")
 
@@ -174,6 +187,16 @@ def run(ctx):
                  wd=ctx.wd, timeout=3000)
     ctx.add_tlc("Sections_gen_levels", rg)
     recs += rg.records
+    titles = {"Levels": {1, 2, 3}, "CLevels": {1, 3}, "Kinds": "<-TitleKinds", "Incs": "<-NoIncs", "WithPara": True,
+              "DevPruneOff": False, "DevMatchTitles": False}
+    rg = tlc.run("Sections", _cfg(ctx, "s_gen_titles.cfg", {**titles, "MaxLen": 3 if quick else 4}, invariants=invs + ["Emit"]),
+                 wd=ctx.wd, timeout=3000)
+    tlc.expect_holds(rg, "Sections(match_titles directives, intended) M |= S")
+    ctx.add_tlc("Sections_gen_titles", rg, "containers incl. a directive that parses with match_titles=True")
+    recs += rg.records
+    rd = tlc.run("Sections", _cfg(ctx, "s_dev_titles.cfg", {**titles, "MaxLen": 1, "DevMatchTitles": True}, invariants=["Structure"]), wd=ctx.wd)
+    tlc.expect_violation(rd, "Structure", "Sections Dev_MatchTitles")
+    ctx.add_tlc("Sections_dev_matchtitles", rd, "expected counterexample found (a heading inside the directive opens a section)")
     seen, cases = set(), []
     for rec in recs:
         key = repr(rec["ev"])
@@ -182,8 +205,13 @@ def run(ctx):
         seen.add(key)
         cases.append({"ev": rec["ev"], "res": rec["res"], "warns": sorted(rec["warns"]), "wd": str(ctx.wd / "docs")})
     outs = pmap(_run_case, cases)
-    for case, o in zip(cases, outs):
+    suspects = []
+    for n, (case, o) in enumerate(zip(cases, outs)):
+        if _has_titles_heading(case["ev"]) and "error" not in o and not o["problems"] and (o["res"] != case["res"] or o["warns"] != case["warns"]):
+            suspects.append((n, case, o))       # decided by the model with the as-built deviation switched on
+            continue
         _judge(ctx, case, o, "R")
+    _known(ctx, suspects, full, "R")
     ctx.sample({"micro_events": cases[len(cases) // 2]["ev"], "expected": cases[len(cases) // 2]["res"],
                 "markdown": outs[len(cases) // 2].get("text")})
 
@@ -211,18 +239,59 @@ def run(ctx):
     if len(rv.records) != len(traces):
         raise tlc.MachineryFailure(f"SectionsTrace: {len(rv.records)} verdicts for {len(traces)} traces")
     byid = {c["id"]: (c, o) for c, o in zip(vcases, vouts)}
+    vsus = []
     for v in rv.records:
         ctx.traces_validated += 1
         if not (v["m"] and v["s"]):
             c, o = byid[v["id"]]
+            if _has_titles_heading(c["ev"]):
+                vsus.append((v["id"], {"ev": c["ev"], "d": max(v["firstdiff"] - 1, 0)}, o))
+                continue
             n = v["firstdiff"]
             ctx.violation("recorded render is not a behaviour of the section model"
                           + (f" (first difference at micro event {n}: {c['ev'][n - 1]}, observed {o['res'][n - 1] if n <= len(o['res']) else None})" if n else " (warning set differs)"),
                           {"leg": "V", "markdown": o["text"], "files": o["files"], "events": c["ev"], "observed": o["res"], "observed_warns": o["warns"]})
+    _known(ctx, vsus, full, "V")
     if traces:
         ctx.sample({"trace_events": traces[0]["ev"][:12], "observed": traces[0]["res"][:12]})
     shutil.rmtree(ctx.wd / "docs", ignore_errors=True)
     ctx.exhaustive = True
+
+
+def _has_titles_heading(ev):
+    """signature of the finding C05-match-titles: a heading somewhere inside a match_titles directive"""
+    depth = []
+    for e in ev:
+        if e[0] == "open":
+            depth.append(e[1])
+        elif e[0] == "close":
+            depth.pop()
+        elif e[0] == "h" and "titles" in depth:
+            return True
+    return False
+
+
+def _known(ctx, suspects, consts, leg):
+    """a mismatch with the finding's signature is the KNOWN-FINDING only if the observation is exactly what the model
+    predicts with DevMatchTitles on"""
+    if not suspects:
+        return
+    from .c18 import _cfg
+    traces = [{"id": n, "ev": case["ev"], "res": o["res"], "warns": o["warns"]} for n, case, o in suspects]
+    tf = ctx.wd / f"s_known_{leg}.ndjson"
+    tlc.write_ndjson(tf, traces)
+    rv = tlc.run("SectionsTrace", _cfg(ctx, f"s_known_{leg}.cfg", {**consts, "MaxLen": 0, "DevMatchTitles": True}, spec="TraceSpec", invariants=["Verdict"]),
+                 wd=ctx.wd, env={"TRACE_FILE": str(tf)}, timeout=3000)
+    ctx.add_tlc(f"SectionsTrace_dev_matchtitles_{leg}", rv, "mismatches with the finding's signature, validated against the as-built model")
+    ok = {v["id"]: v["m"] for v in rv.records}
+    for n, case, o in suspects:
+        ctx.count(repr(case["ev"]), True)
+        ctx.traces_validated += 1
+        d = case["d"] if "d" in case else next((i for i, (a, b) in enumerate(zip(o["res"], case["res"])) if a != b), 0)
+        msg = (f"a heading inside a directive that parses with match_titles=True opens a section (event {d + 1} {case['ev'][d]}: observed {o['res'][d]})"
+               if ok.get(n) else f"section structure differs from the specification and from the as-built model at event {d + 1} {case['ev'][d]}: observed {o['res'][d]}")
+        ctx.violation(msg, {"leg": leg, "markdown": o["text"], "files": o["files"], "events": case["ev"], "observed": o["res"]},
+                      finding="C05-match-titles" if ok.get(n) else None)
 
 
 def _judge(ctx, case, o, leg):
@@ -257,7 +326,7 @@ def _random_events(rnd):
         elif r < 0.6:
             ev.append(["p"])
         elif r < 0.85 and depth < 3:
-            ev.append(["open", rnd.choice(["quote", "item", "note"])])
+            ev.append(["open", rnd.choice(["quote", "item", "note", "note", "titles"])])
             for _ in range(rnd.randint(1, 3)):
                 block(depth + 1, in_inc)
             ev.append(["close"])
